@@ -183,6 +183,10 @@ func (e *exec) hang(what string) {
 			return
 		}
 	}
+	if spin, cpu := census.Spinning(3*time.Second, 45*time.Second, nil); len(spin) > 0 {
+		e.report(dLive, "-", "%s: nothing arrived within %v; since then the process has consumed %v of processor time while goroutine(s) of the library stayed in motion inside the same function in every census (a busy loop): %v", what, wire.DefaultWait, cpu.Round(time.Millisecond), census.Summary(spin))
+		return
+	}
 	e.inconcl = what + ": deadline expired while library goroutines were still running"
 }
 
